@@ -25,7 +25,8 @@ Definition t_plus := {| tx := [cPLUS]; kd := KOperator |}.
 Definition t_minus := {| tx := [cMINUS]; kd := KOperator |}.
 
 (* sanitize_tokens: "." becomes an operator; python normalisation is an oracle (identity here) *)
-Definition sanitize (t : tk) : tk := if leqb (tx t) [cDOT] then {| tx := tx t; kd := KOperator |} else t.
+Definition sanitize (t : tk) : tk :=     (* a back-quoted `.` (kind NAME) stays a name *)
+  if leqb (tx t) [cDOT] && negb (kind_eqb (kd t) KName) then {| tx := tx t; kd := KOperator |} else t.
 
 (* replace_tokens(tokens, "0", [-, 1], kind=VALUE) *)
 Definition replace_zero (ts : list tk) : list tk :=
